@@ -138,6 +138,12 @@ func (s *RegScenario) Setup(k *sim.Kernel) {
 				switch op.Op {
 				case "wait":
 					continue
+				case "close":
+					if conn != nil {
+						conn.Close()
+						conn = nil
+					}
+					continue
 				case "reg":
 					o.Call = sim.Rec("reg.call", op.Name)
 					err := svc.RegisterInterface(&descIface{op.Name, op.Desc})
@@ -159,6 +165,7 @@ func (s *RegScenario) Setup(k *sim.Kernel) {
 				case "shutdown":
 					o.Call = sim.Rec("shutdown.call", "")
 					svc.Shutdown()
+					sim.Rec("shutdown.return", "")
 					o.Out = "done"
 				case "getinfo":
 					if !connect() {
@@ -247,8 +254,9 @@ func (s *RegScenario) Setup(k *sim.Kernel) {
 	k.Spawn("janitor", func() {
 		for i := 0; i < 6; i++ {
 			sim.Await(sim.Cond{Kind: sim.CondQuiescent})
-			sim.Rec("janitor.shutdown", "")
+			sim.Rec("shutdown.call", "janitor")
 			svc.Shutdown()
+			sim.Rec("shutdown.return", "")
 		}
 	})
 }
@@ -269,8 +277,10 @@ func (s *RegScenario) NonTrivial(k *sim.Kernel) bool {
 
 type regState struct {
 	// names in registration order (without org.varlink.service), each followed by its description
-	table   string
-	serving bool
+	table string
+	// phase: 0 idle, 1 serving, 2 draining (Shutdown has been issued, the serving
+	// call has not returned yet: accepted connections may still be served)
+	phase int
 }
 
 type regInput struct {
@@ -328,8 +338,13 @@ func (s *RegScenario) regModel() porcupine.Model {
 				if in.name == "org.varlink.service" {
 					dup = true
 				}
-				if dup || st.serving {
+				if dup || st.phase == 1 {
 					return out == "refused", st
+				}
+				if st.phase == 2 && out == "refused" {
+					// between Shutdown and the return of the serving call the statement
+					// does not say whether a registration is accepted
+					return true, st
 				}
 				if out != "ok" {
 					return false, st
@@ -338,19 +353,26 @@ func (s *RegScenario) regModel() porcupine.Model {
 				ns.table = tableAdd(st.table, in.name, in.desc)
 				return true, ns
 			case "start":
-				if st.serving {
+				if st.phase != 0 {
 					return false, st
 				}
 				ns := st
-				ns.serving = true
+				ns.phase = 1
 				return true, ns
-			case "stop":
-				// the rounds of the one serving actor are sequential: a Stop ends the round whose Start came before
-				if !st.serving {
+			case "drain":
+				// the rounds of the one serving actor are sequential: Drain and Idle end the round whose Start came before
+				if st.phase != 1 {
 					return false, st
 				}
 				ns := st
-				ns.serving = false
+				ns.phase = 2
+				return true, ns
+			case "idle":
+				if st.phase != 2 {
+					return false, st
+				}
+				ns := st
+				ns.phase = 0
 				return true, ns
 			case "getinfo":
 				names := append([]string{"org.varlink.service"}, tableNames(st.table)...)
@@ -398,11 +420,22 @@ func (s *RegScenario) Check(k *sim.Kernel) []sim.Violation {
 		}
 		return 0, false
 	}
-	type sd struct{ call uint64 }
+	type sd struct {
+		call, ret uint64
+		task      string
+	}
 	var shutdowns []sd
 	for _, e := range k.Log {
-		if e.Kind == "shutdown.call" || e.Kind == "janitor.shutdown" {
-			shutdowns = append(shutdowns, sd{e.Seq})
+		switch e.Kind {
+		case "shutdown.call":
+			shutdowns = append(shutdowns, sd{call: e.Seq, ret: ^uint64(0), task: e.Task})
+		case "shutdown.return":
+			for i := len(shutdowns) - 1; i >= 0; i-- {
+				if shutdowns[i].task == e.Task && shutdowns[i].ret == ^uint64(0) {
+					shutdowns[i].ret = e.Seq
+					break
+				}
+			}
 		}
 	}
 	sort.Slice(shutdowns, func(i, j int) bool { return shutdowns[i].call < shutdowns[j].call })
@@ -437,14 +470,23 @@ func (s *RegScenario) Check(k *sim.Kernel) []sim.Violation {
 				startRet = int64(acc)
 			}
 			hist = append(hist, porcupine.Operation{ClientId: o.Actor, Input: regInput{op: "start"}, Call: int64(o.Call), Output: "", Return: startRet})
-			stopCall := ret
+			// Drain: the earliest Shutdown call that was in progress at some point of
+			// this round, clipped to the round; Idle: from there to the return.
+			drainCall, drainRet := ret, ret
 			for _, s := range shutdowns {
-				if s.call > o.Call && int64(s.call) < ret {
-					stopCall = int64(s.call)
+				if int64(s.call) < ret && s.ret > o.Call {
+					drainCall = int64(s.call)
+					if s.call < o.Call {
+						drainCall = int64(o.Call)
+					}
+					if s.ret != ^uint64(0) && int64(s.ret) < ret {
+						drainRet = int64(s.ret)
+					}
 					break
 				}
 			}
-			hist = append(hist, porcupine.Operation{ClientId: o.Actor, Input: regInput{op: "stop"}, Call: stopCall, Output: "", Return: ret})
+			hist = append(hist, porcupine.Operation{ClientId: o.Actor, Input: regInput{op: "drain"}, Call: drainCall, Output: "", Return: drainRet})
+			hist = append(hist, porcupine.Operation{ClientId: o.Actor, Input: regInput{op: "idle"}, Call: drainCall, Output: "", Return: ret})
 		}
 	}
 	// serving calls that have not returned: a Start without Stop
@@ -467,9 +509,18 @@ func (s *RegScenario) Check(k *sim.Kernel) []sim.Violation {
 			}
 			hist = append(hist, porcupine.Operation{ClientId: 99, Input: regInput{op: "start"}, Call: int64(e.Seq), Output: "", Return: ret})
 			for _, s := range shutdowns {
-				if s.call > e.Seq {
-					// a Shutdown was issued: its Stop is pending too
-					hist = append(hist, porcupine.Operation{ClientId: 99, Input: regInput{op: "stop"}, Call: int64(s.call), Output: "", Return: int64(k.Seq()) + 2})
+				if s.ret > e.Seq {
+					// a Shutdown was issued: draining began during it, the return to idle is pending
+					c := int64(s.call)
+					if s.call < e.Seq {
+						c = int64(e.Seq)
+					}
+					r := int64(k.Seq()) + 2
+					if s.ret != ^uint64(0) {
+						r = int64(s.ret)
+					}
+					hist = append(hist, porcupine.Operation{ClientId: 99, Input: regInput{op: "drain"}, Call: c, Output: "", Return: r})
+					hist = append(hist, porcupine.Operation{ClientId: 99, Input: regInput{op: "idle"}, Call: c, Output: "", Return: int64(k.Seq()) + 3})
 					break
 				}
 			}
@@ -623,6 +674,10 @@ func genC13(seed uint64, tier string) Scenario {
 	for i := 0; i < nInit; i++ {
 		s.Service.Ifaces = append(s.Service.Ifaces, IfaceSpec{Name: pool[i], Desc: "interface " + pool[i] + "\n" + g.String(40)})
 	}
+	if g.Pct(15) && nInit > 0 {
+		// a description larger than any internal buffer
+		s.Service.Ifaces[0].Desc = "interface " + s.Service.Ifaces[0].Name + "\n# " + g.BigString(4000+g.IntN(6000))
+	}
 	fresh := pool[nInit:]
 	nextFresh := 0
 	newName := func() string {
@@ -677,6 +732,9 @@ func genC13(seed uint64, tier string) Scenario {
 		case 0:
 			return "org.varlink.service"
 		case 1:
+			if g.Pct(15) {
+				return "no.such." + g.BigString(4500)
+			}
 			return g.Pick("", "no.such", "a.b.c.d.e", "org.varlink.servic")
 		case 2:
 			if s.Resolver != nil {
@@ -710,6 +768,10 @@ func genC13(seed uint64, tier string) Scenario {
 					op.Op = "getinfo"
 				}
 				ops = append(ops, op)
+			}
+			// let the round end: an open connection keeps the serving call from returning
+			if g.Pct(85) {
+				ops = append(ops, RegOp{Op: "close"})
 			}
 		}
 		s.Actors = append(s.Actors, ops)
